@@ -1897,13 +1897,18 @@ class Method:
             self.input.fields.get("max_results", None),
             self.input.fields.get("page_size", None),
         )
-        page_field_size = next((field for field in page_fields if field), None)
+        # Either of them qualifies when it is of an allowed type.
+        page_field_size = next(
+            (
+                field
+                for field in page_fields
+                if field
+                and self._validate_paged_field_size_type(page_field_size=field)
+            ),
+            None,
+        )
 
         if not page_field_size:
-            return None
-
-        # Confirm whether the paged_field_size is an allowed type.
-        if not self._validate_paged_field_size_type(page_field_size=page_field_size):
             return None
 
         # Return the first repeated field.
